@@ -46,7 +46,7 @@ def run(rep, tier):
         "pair of non-equal normal forms. Templates are read from the source of generator.rs; their interpolated "
         "variables are resolved by name against the let-bindings and pattern bindings of the enclosing match arm "
         "in the typed HIR.")
-    rep.configs = ["default", "extras"]
+    rep.configs = rep.cfgs(["default", "extras"])
     programs = 0
     disagreements = 0
     samples = []
